@@ -12,7 +12,9 @@
 //!
 //! Oracle, per operation:
 //! * on a removed channel: if the flag was seen before the operation started it must fail with
-//!   not-found; once a context has reported not-found it never succeeds again (no reappearance);
+//!   not-found (so a removed channel never reappears to an operation that starts after the
+//!   removal returned); a success that follows a not-found of the same context while the
+//!   removal is still in progress is only counted (`transient_notfound_then_success`);
 //! * on a channel that was not removed: it must succeed (seals count 0,1,2,… per context, opens
 //!   return the peer's plaintext);
 //! A fourth family lets the writer remove `x` and then `y` (two flags each: "started" and
@@ -162,9 +164,10 @@ fn run_op<S: AfcState<CipherSuite = super::world::CS>>(
                     oracle_fail!("{kind} on a removed channel succeeded after the removal had returned");
                 }
                 if h.dead {
-                    oracle_fail!(
-                        "{kind} on a channel under removal succeeded after the same context had reported not-found: the removed channel reappeared [key: {kind} reports not-found for a channel under removal and then succeeds again through the same context]"
-                    );
+                    // Both observations precede the removal's return (the `after` case is a
+                    // violation above): the statement only speaks about operations that start
+                    // after the removal has returned, so this is informational.
+                    stats::count("transient_notfound_then_success");
                 }
                 let want = if kind == "seal" { h.successes } else { 0 };
                 if *seq != want {
